@@ -7,14 +7,18 @@ pub mod c02;
 pub mod c03;
 pub mod c04;
 pub mod c05;
+pub mod c07;
 pub mod c11;
+pub mod c17;
 
 pub fn make(id: &str, run: &mut crate::run::Run) -> Option<Box<dyn Prop>> {
 	match id {
 		"C01" => Some(Box::new(c01::C01::new(run))),
 		"C02" => Some(Box::new(c02::C02::new(run))),
 		"C03" => Some(Box::new(c03::C03::new(run))),
+		"C07" => Some(Box::new(c07::C07::new(run))),
 		"C11" => Some(Box::new(c11::C11::new(run))),
+		"C17" => Some(Box::new(c17::C17::new(run))),
 		"C05" => Some(Box::new(c05::C05::new(run))),
 		"C04" => Some(Box::new(c04::C04::new(run))),
 		_ => None,
@@ -26,7 +30,7 @@ pub fn make_for_replay(id: &str, run: &mut crate::run::Run) -> Option<Box<dyn Pr
 	make(id, run)
 }
 
-pub const ALL: &[&str] = &["C01", "C02", "C03", "C04", "C05", "C11"];
+pub const ALL: &[&str] = &["C01", "C02", "C03", "C04", "C05", "C07", "C11", "C17"];
 
 /// (runs, max steps per run) per tier
 pub fn budget(id: &str, thorough: bool) -> (u64, usize) {
@@ -51,6 +55,8 @@ pub fn rule(id: &str) -> String {
 		"C05" => "seeded histories; a case is one cancel_tx whose wallet had a base snapshot (refreshed, chain frozen, touched only by the target transaction since) or one refused cancel on a fresh wallet; non-trivial when the rollback comparison ran or the refusal reason was confirmed/coinbase/already-cancelled/unknown; distinct by (entry kind, #transactions touched, #other pending) / refusal class".into(),
 		"C02" => "seeded send / late-lock / self-send / invoice exchanges from wallets in arbitrary mid-history states; in most runs a fraction of replies is altered by one field-level mutation (amount, fee, offset, participant key/nonce/partial signature swapped, dropped, duplicated or taken from another slate, commitments added/removed/replaced, range proof swapped, state, id, participant count, ttl, kernel features, payment-proof fields) before finalization; a case is one finalize attempt (flow kind x mutation kind or honest) or one cancel after a refused finalize; every case counts as non-trivial (the context existed and the reply was well-formed up to one mutation)".into(),
 		"C11" => "seeded proof-carrying sends between 3 wallets, replies altered on their proof fields / amount / participant key, then export by the sender and verification by sender, recipient and a third wallet of the proof and of single-field mutations of it, with the kernel not mined, mined, and re-organised away; a case is one finalize (mutation x answered-by-requested-recipient x outcome) or one verification (mutation x chain state x outcome)".into(),
+		"C07" => "seeded honest histories (victims with pending sends, invoices, late-locked transactions) interleaved with a Byzantine peer on the foreign API: harvested slates replayed to receive_tx/finalize_tx, one-field mutations of them, forged slates carrying ids of the victim's pending transactions, build_coinbase with guessable key ids of existing outputs, unknown accounts; a case is one foreign call (method x slate class x outcome); every case reached wallet code".into(),
+		"C17" => "seeded histories with ttl_blocks on sends and cutoffs rewritten on the wire to h-1, h, h+1, h+2, 0, u64::MAX, 1 relative to the height the receiving wallet last observed, many single-block mines and refreshes; a case is one receive/pay/finalize of a slate (step x cutoff relation x outcome) or one outstanding entry seen by a successful refresh (expired or not); non-trivial when a cutoff is present".into(),
 		_ => "seeded histories".into(),
 	}
 }
